@@ -169,6 +169,12 @@ fn instantiate_struct_field_ty(
     if let Some((_, ty)) = struct_def.fields.iter().find(|(fname, _)| fname == field) {
         Some(substitute_ty_params(ty, &subst))
     } else if field.0 == COMPLETION_PLACEHOLDER {
+        // The editor queries' placeholder gets a type so that the rest of the text still
+        // type-checks, but it is not a field: a program that spells it is rejected.
+        super::util::push_error(
+            diagnostics,
+            format!("Struct {} has no field {}", struct_def.name.0, field.0),
+        );
         Some(tast::Ty::TUnit)
     } else {
         super::util::push_error(
